@@ -186,6 +186,9 @@ pub enum Action {
     PeerCall { key: u8, id: u32 },
     /// look up (and thereby spawn on demand) the service `Probe<k>` (k = 1 or 2) and call it
     LookupService { k: u8 },
+    /// put the weak sender and the weak caller this actor's context makes where clients can pick
+    /// them up (`Op::AdoptCtx`): handles minted by the context are handles like any other
+    ShareCtxHandles,
 }
 
 #[derive(Clone, Debug)]
@@ -253,6 +256,9 @@ pub struct World {
     /// per message id: number of handler invocations so far
     pub invocations: Vec<(u32, u32)>,
     pub real_mode: bool,
+    /// length of one tick of the library's timers in microseconds (1000, or less for the
+    /// programs with sub-millisecond timers; the harness' own sleeps are whole ticks)
+    pub tick_us: u32,
 }
 
 impl World {
@@ -269,6 +275,7 @@ impl World {
             store: Vec::new(),
             invocations: Vec::new(),
             real_mode: false,
+            tick_us: 1000,
         }
     }
 }
@@ -291,7 +298,9 @@ pub fn reset(roles: Vec<RoleCfg>) {
         w.default_role = [0; 4];
         w.store.clear();
         w.invocations.clear();
+        w.tick_us = 1000;
     });
+    CTX_SHARE.with(|c| *c.borrow_mut() = None);
 }
 
 pub fn take_log() -> Vec<Entry> {
@@ -379,6 +388,11 @@ pub fn log_exec(ev: ExecEvent) {
     log(Ev::X(x));
 }
 
+thread_local! {
+    /// weak handles made by an actor's own context (`Action::ShareCtxHandles`)
+    pub static CTX_SHARE: RefCell<Option<(hannibal::WeakSender<Note>, hannibal::WeakCaller<Ask>)>> = const { RefCell::new(None) };
+}
+
 pub fn store_put(s: Stored) -> u8 {
     W.with(|w| {
         let mut w = w.borrow_mut();
@@ -399,7 +413,7 @@ pub fn store_peek_addr(key: u8) -> Option<Addr<Probe<0>>> {
 }
 
 pub fn ms(t: u32) -> Duration {
-    Duration::from_millis(t as u64)
+    Duration::from_micros(t as u64 * W.with(|w| w.borrow().tick_us) as u64)
 }
 
 /// Virtual sleep usable from `Send` handler futures.
@@ -697,6 +711,10 @@ impl<const K: u8> Probe<K> {
                     let r = peer.call(Ask(id)).await;
                     ctxlog(CtxOp::PeerCall, r.is_ok());
                 }
+            }
+            Action::ShareCtxHandles => {
+                let pair = (ctx.weak_sender::<Note>(), ctx.weak_caller::<Ask, crate::world::Reply>());
+                CTX_SHARE.with(|c| *c.borrow_mut() = Some(pair));
             }
             Action::LookupService { k } => {
                 let ok = if k == 1 {
